@@ -129,6 +129,34 @@ func init() {
 			}
 		}
 		sc.Peer = append(sc.Peer, PeerOp{Kind: "partials", Source: "src1", Sync: true})
+		if g.pct(25) {
+			// a name that was delivered before, then questions about a NEW version
+			// of it of which nothing (or only a part) has been sent: what the
+			// receiver holds of the old version must not be claimed for the new one
+			old := PeerFile{Name: "again.dat", Size: int64(50 + g.n(800)), Seed: g.u64(), TimeS: 4000}
+			nw := old
+			nw.Seed, nw.TimeS = g.u64(), 300
+			if g.pct(50) {
+				nw.Size = int64(50 + g.n(800))
+			}
+			sc.PeerFiles = append(sc.PeerFiles, old, nw)
+			oi, ni := len(sc.PeerFiles)-2, len(sc.PeerFiles)-1
+			pro := []PeerOp{
+				{Kind: "data", Source: "src1", Parts: []PeerPart{{oi, 0, old.Size}}},
+				{Kind: "settle", Sync: true},
+			}
+			if g.pct(50) {
+				pro = append(pro, PeerOp{Kind: "poll", Source: "src1", Names: []string{"again.dat"}, Sync: true})
+			}
+			cut := 1 + int64(g.n(int(nw.Size-1)))
+			if g.pct(40) {
+				pro = append(pro, PeerOp{Kind: "data", Source: "src1", Parts: []PeerPart{{ni, 0, cut}}, Sync: true})
+			}
+			pro = append(pro, PeerOp{Kind: "recovery", Source: "src1", Parts: []PeerPart{{ni, 0, cut}, {ni, cut, nw.Size}}, Sync: true})
+			pro = append(pro, PeerOp{Kind: "recovery", Source: "src1", Parts: []PeerPart{{ni, cut, nw.Size}}, Sync: true})
+			pro = append(pro, PeerOp{Kind: "partials", Source: "src1", Sync: true})
+			sc.Peer = append(pro, sc.Peer...)
+		}
 		return one(sc)
 	}
 
